@@ -82,12 +82,25 @@ def BalOut (t h : Nat) (key : Nat) (es : List Elt) (cs : List Node) (r : List El
     (∀ x ∈ el1, x.1 < key) ∧ (∀ x ∈ er1, key < x.1) ∧ minKeys t < c1.elts.length ∧
     es.length ≤ (el1 ++ er1).length + 1 ∧ (el1 ++ er1).length ≤ es.length
 
+/-- `BalOut` together with the index of the child to continue in -/
+def BalOutAt (j : Nat) (t h : Nat) (key : Nat) (es : List Elt) (cs : List Node) (r : List Elt × List Node) : Prop :=
+  ∃ el1 er1 cl1 c1 cr1, r = (el1 ++ er1, cl1 ++ c1 :: cr1) ∧ cl1.length = el1.length ∧
+    Kids t h (el1 ++ er1) (cl1 ++ c1 :: cr1) ∧
+    flat (.node (el1 ++ er1) (cl1 ++ c1 :: cr1)) = flat (.node es cs) ∧
+    (∀ x ∈ el1, x.1 < key) ∧ (∀ x ∈ er1, key < x.1) ∧ minKeys t < c1.elts.length ∧
+    es.length ≤ (el1 ++ er1).length + 1 ∧ (el1 ++ er1).length ≤ es.length ∧ el1.length = j
+
+theorem BalOutAt.toBalOut {j t h key : Nat} {es : List Elt} {cs : List Node} {r : List Elt × List Node}
+    (b : BalOutAt j t h key es cs r) : BalOut t h key es cs r := by
+  obtain ⟨el1, er1, cl1, c1, cr1, h1, h2, h3, h4, h5, h6, h7, h8, h9, _⟩ := b
+  exact ⟨el1, er1, cl1, c1, cr1, h1, h2, h3, h4, h5, h6, h7, h8, h9⟩
+
 theorem bal_left_steal {t h key : Nat} {el er : List Elt} {p : Elt} {cl cr : List Node} {l c : Node}
     (hk : Kids t h (el ++ p :: er) (cl ++ l :: c :: cr)) (hcl : cl.length = el.length)
     (hs : Sorted (flat (.node (el ++ p :: er) (cl ++ l :: c :: cr))))
     (hlmin : l.elts.length ≠ minKeys t) (hcmax : c.elts.length < maxKeys t)
     (hwl : ∀ x ∈ el, x.1 < key) (hp : p.1 < key) (hwr : ∀ x ∈ er, key < x.1) :
-    BalOut t h key (el ++ p :: er) (cl ++ l :: c :: cr)
+    BalOutAt (el.length + 1) t h key (el ++ p :: er) (cl ++ l :: c :: cr)
       (el ++ (stealFromLeft l c p).2.1 :: er, cl ++ (stealFromLeft l c p).1 :: (stealFromLeft l c p).2.2 :: cr) := by
   have hl := hk.2 l (by simp)
   have hc := hk.2 c (by simp)
@@ -106,7 +119,7 @@ theorem bal_left_steal {t h key : Nat} {el er : List Elt} {p : Elt} {cl cr : Lis
     have hmid := (sorted_append_iff.mp (sorted_append_iff.mp hs').1).2.1
     have := (sorted_append_iff.mp hmid).2.1
     exact (sorted_cons_iff.mp this).1 p hmem
-  refine ⟨el ++ [up], er, cl ++ [l'], c', cr, by simp, by simp [hcl], ?_, by simpa using hflat, ?_, hwr, ?_, ?_, ?_⟩
+  refine ⟨el ++ [up], er, cl ++ [l'], c', cr, by simp, by simp [hcl], ?_, by simpa using hflat, ?_, hwr, ?_, ?_, ?_, by simp⟩
   · have hol' : Occ t l' := by have := hl.2; simp only [Occ] at this ⊢; omega
     have hoc' : Occ t c' := by have := hc.2; simp only [Occ] at this ⊢; omega
     have := kids_replace2 (up := up) hk ⟨h1, hol'⟩ ⟨h2, hoc'⟩
@@ -124,7 +137,7 @@ theorem bal_right_steal {t h key : Nat} {el er : List Elt} {q : Elt} {cl cr : Li
     (hs : Sorted (flat (.node (el ++ q :: er) (cl ++ c :: r :: cr))))
     (hrmin : r.elts.length ≠ minKeys t) (hcmax : c.elts.length < maxKeys t)
     (hwl : ∀ x ∈ el, x.1 < key) (hq : key < q.1) (hwr : ∀ x ∈ er, key < x.1) :
-    BalOut t h key (el ++ q :: er) (cl ++ c :: r :: cr)
+    BalOutAt el.length t h key (el ++ q :: er) (cl ++ c :: r :: cr)
       (el ++ (stealFromRight c r q).2.1 :: er, cl ++ (stealFromRight c r q).1 :: (stealFromRight c r q).2.2 :: cr) := by
   have hc := hk.2 c (by simp)
   have hr := hk.2 r (by simp)
@@ -142,7 +155,7 @@ theorem bal_right_steal {t h key : Nat} {el er : List Elt} {q : Elt} {cl cr : Li
     rw [flat_node_split2 _ _ _ _ _ _ _ hcl] at hs'
     have hmid := (sorted_append_iff.mp (sorted_append_iff.mp hs').1).2.1
     exact (sorted_append_iff.mp hmid).2.2 q hmem up (by simp)
-  refine ⟨el, up :: er, cl, c', r' :: cr, rfl, hcl, ?_, hflat, hwl, ?_, ?_, by simp, by simp⟩
+  refine ⟨el, up :: er, cl, c', r' :: cr, rfl, hcl, ?_, hflat, hwl, ?_, ?_, by simp, by simp, rfl⟩
   · refine kids_replace2 hk ⟨h1, ?_⟩ ⟨h2, ?_⟩
     · have := hc.2; simp only [Occ] at this ⊢; omega
     · have := hr.2; simp only [Occ] at this ⊢; omega
@@ -156,9 +169,9 @@ theorem bal_merge {t h key : Nat} {el er : List Elt} {p : Elt} {cl cr : List Nod
     (hk : Kids t h (el ++ p :: er) (cl ++ a :: b :: cr)) (hcl : cl.length = el.length)
     (ha : a.elts.length = minKeys t) (hb : b.elts.length = minKeys t)
     (hwl : ∀ x ∈ el, x.1 < key) (hwr : ∀ x ∈ er, key < x.1) :
-    BalOut t h key (el ++ p :: er) (cl ++ a :: b :: cr) (el ++ er, cl ++ mergeNodes a p b :: cr) := by
+    BalOutAt el.length t h key (el ++ p :: er) (cl ++ a :: b :: cr) (el ++ er, cl ++ mergeNodes a p b :: cr) := by
   obtain ⟨h1, h2, h3⟩ := mergeNodes_spec p (hk.2 a (by simp)).1 (hk.2 b (by simp)).1
-  refine ⟨el, er, cl, mergeNodes a p b, cr, rfl, hcl, ?_, ?_, hwl, hwr, ?_, by simp <;> omega, by simp⟩
+  refine ⟨el, er, cl, mergeNodes a p b, cr, rfl, hcl, ?_, ?_, hwl, hwr, ?_, by simp <;> omega, by simp, rfl⟩
   · refine kids_merge2 hk ⟨h1, ?_⟩
     simp only [Occ, h2, ha, hb, minKeys, maxKeys]; omega
   · rw [flat_node_split _ _ _ _ _ hcl, flat_node_split2 _ _ _ _ _ _ _ hcl, h3]
@@ -197,11 +210,11 @@ theorem balance_spec {t h key : Nat} {el er : List Elt} {cl cr : List Node} {c :
           simp only [List.nil_append, List.length_nil] at hm
           rw [hm]
           have := bal_merge (key := key) (el := []) (cl := []) (by omega) hk rfl hmin hrmin (by simp) hwr'
-          exact ⟨_, rfl, by simpa using this⟩
+          exact ⟨_, rfl, by simpa using this.toBalOut⟩
         · have : isMinimal t r = false := by simp [isMinimal, hrmin]
           simp only [this, Bool.false_eq_true, if_false]
           have := bal_right_steal (key := key) (el := []) (cl := []) hk rfl hs hrmin hcmax (by simp) hq hwr'
-          exact ⟨_, rfl, by simpa using this⟩
+          exact ⟨_, rfl, by simpa using this.toBalOut⟩
   · -- there is a left sibling
     obtain ⟨el', p, rfl⟩ := snoc_of_pos el (by cases el <;> simp_all)
     obtain ⟨cl', l, rfl⟩ := snoc_of_pos cl (by simp at hcl; omega)
@@ -219,7 +232,7 @@ theorem balance_spec {t h key : Nat} {el er : List Elt} {cl cr : List Node} {c :
       have hmerge : ∃ r, merge (el' ++ p :: er) (cl' ++ l :: c :: cr) (el'.length + 1 - 1) = some r ∧
           BalOut t h key (el' ++ p :: er) (cl' ++ l :: c :: cr) r := by
         rw [Nat.add_sub_cancel, merge_eq el' er p cl' l c cr hcl']
-        exact ⟨_, rfl, bal_merge (by omega) hk hcl' hlmin hmin hwl' hwr⟩
+        exact ⟨_, rfl, (bal_merge (by omega) hk hcl' hlmin hmin hwl' hwr).toBalOut⟩
       cases er with
       | nil =>
         have : cr = [] := by cases cr <;> simp_all
@@ -247,9 +260,106 @@ theorem balance_spec {t h key : Nat} {el er : List Elt} {cl cr : List Node} {c :
             have hs2 : Sorted (flat (.node ((el' ++ [p]) ++ q :: er) ((cl' ++ [l]) ++ c :: r :: cr))) := by
               simpa using hs
             have := bal_right_steal (key := key) hk2 (by simp [hcl']) hs2 hrmin hcmax hwl hq hwr'
-            exact ⟨_, rfl, by simpa using this⟩
+            exact ⟨_, rfl, by simpa using this.toBalOut⟩
     · have : isMinimal t l = false := by simp [isMinimal, hlmin]
       simp only [this, Bool.false_eq_true, if_false]
-      exact ⟨_, rfl, bal_left_steal hk hcl' hs hlmin hcmax hwl' hp hwr⟩
+      exact ⟨_, rfl, (bal_left_steal hk hcl' hs hlmin hcmax hwl' hp hwr).toBalOut⟩
+
+/-- `balance_spec` with the index of the child to continue in: the same index after a steal or a merge of the
+leftmost child, one less after a merge with the left sibling -/
+theorem balance_spec_at {t h key : Nat} {el er : List Elt} {cl cr : List Node} {c : Node} (ht : 2 ≤ t)
+    (hk : Kids t h (el ++ er) (cl ++ c :: cr)) (hcl : cl.length = el.length)
+    (hs : Sorted (flat (.node (el ++ er) (cl ++ c :: cr))))
+    (hmin : c.elts.length = minKeys t) (hne : 1 ≤ (el ++ er).length)
+    (hwl : ∀ x ∈ el, x.1 < key) (hwr : ∀ x ∈ er, key < x.1) :
+    ∃ r j, balance t (el ++ er) (cl ++ c :: cr) el.length = some r ∧ BalOutAt j t h key (el ++ er) (cl ++ c :: cr) r ∧
+      (r.1.length = (el ++ er).length → j = el.length) ∧
+      (r.1.length + 1 = (el ++ er).length → el = [] → j = 0) ∧
+      (r.1.length + 1 = (el ++ er).length → el ≠ [] → j + 1 = el.length) := by
+  have hcr : cr.length = er.length := by have := hk.1; simp at this; omega
+  have hcmax : c.elts.length < maxKeys t := by rw [hmin]; simp only [minKeys, maxKeys]; omega
+  -- the right-hand alternatives (right steal, or merge with the right sibling), available when `er ≠ []`
+  by_cases hel : el = []
+  · -- leftmost child
+    subst hel
+    have : cl = [] := by cases cl <;> simp_all
+    subst this
+    cases er with
+    | nil => simp at hne
+    | cons q er =>
+      cases cr with
+      | nil => simp at hcr
+      | cons r cr =>
+        have hq := hwr q (by simp)
+        have hwr' : ∀ x ∈ er, key < x.1 := fun x hx => hwr x (by simp [hx])
+        have hrs := tryRightSteal_eq t [] er q [] c r cr rfl
+        simp only [List.nil_append, List.length_nil] at hrs hk hs ⊢
+        simp only [balance, tryLeftSteal_zero, hrs]
+        by_cases hrmin : r.elts.length = minKeys t
+        · have : isMinimal t r = true := by simp [isMinimal, hrmin]
+          simp only [this, if_true]
+          have hm := merge_eq [] er q [] c r cr rfl
+          simp only [List.nil_append, List.length_nil] at hm
+          rw [hm]
+          have := bal_merge (key := key) (el := []) (cl := []) (by omega) hk rfl hmin hrmin (by simp) hwr'
+          exact ⟨_, 0, rfl, by simpa using this, by simp, by simp, by simp⟩
+        · have : isMinimal t r = false := by simp [isMinimal, hrmin]
+          simp only [this, Bool.false_eq_true, if_false]
+          have := bal_right_steal (key := key) (el := []) (cl := []) hk rfl hs hrmin hcmax (by simp) hq hwr'
+          exact ⟨_, 0, rfl, by simpa using this, by simp, by simp, by simp⟩
+  · -- there is a left sibling
+    obtain ⟨el', p, rfl⟩ := snoc_of_pos el (by cases el <;> simp_all)
+    obtain ⟨cl', l, rfl⟩ := snoc_of_pos cl (by simp at hcl; omega)
+    have hcl' : cl'.length = el'.length := by simpa using hcl
+    have hp := hwl p (by simp)
+    have hwl' : ∀ x ∈ el', x.1 < key := fun x hx => hwl x (by simp [hx])
+    simp only [List.append_assoc, List.singleton_append, List.length_append, List.length_cons,
+      List.length_nil, Nat.zero_add] at hk hs hne ⊢
+    have hls := tryLeftSteal_eq t el' er p cl' l c cr hcl'
+    simp only [balance, hls]
+    by_cases hlmin : l.elts.length = minKeys t
+    · have : isMinimal t l = true := by simp [isMinimal, hlmin]
+      simp only [this, if_true]
+      -- no left steal; try the right sibling
+      have hmerge : ∃ r j, merge (el' ++ p :: er) (cl' ++ l :: c :: cr) (el'.length + 1 - 1) = some r ∧
+          BalOutAt j t h key (el' ++ p :: er) (cl' ++ l :: c :: cr) r ∧
+          (r.1.length = el'.length + (er.length + 1) → j = el'.length + 1) ∧
+          (r.1.length + 1 = el'.length + (er.length + 1) → el' ++ [p] = [] → j = 0) ∧
+          (r.1.length + 1 = el'.length + (er.length + 1) → el' ++ [p] ≠ [] → j + 1 = el'.length + 1) := by
+        rw [Nat.add_sub_cancel, merge_eq el' er p cl' l c cr hcl']
+        exact ⟨_, el'.length, rfl, bal_merge (by omega) hk hcl' hlmin hmin hwl' hwr,
+          by simp <;> omega, by simp, by simp⟩
+      cases er with
+      | nil =>
+        have : cr = [] := by cases cr <;> simp_all
+        subst this
+        have hshort : ¬ el'.length + 1 + 1 < (cl' ++ [l, c]).length := by simp; omega
+        rw [tryRightSteal_none_of_short _ _ _ _ hshort]
+        simpa using hmerge
+      | cons q er =>
+        cases cr with
+        | nil => simp at hcr
+        | cons r cr =>
+          have hq := hwr q (by simp)
+          have hwr' : ∀ x ∈ er, key < x.1 := fun x hx => hwr x (by simp [hx])
+          have hrs := tryRightSteal_eq t (el' ++ [p]) er q (cl' ++ [l]) c r cr (by simp [hcl'])
+          simp only [List.append_assoc, List.singleton_append, List.length_append, List.length_cons,
+            List.length_nil, Nat.zero_add] at hrs
+          rw [hrs]
+          by_cases hrmin : r.elts.length = minKeys t
+          · have : isMinimal t r = true := by simp [isMinimal, hrmin]
+            simp only [this, if_true]
+            simpa using hmerge
+          · have : isMinimal t r = false := by simp [isMinimal, hrmin]
+            simp only [this, Bool.false_eq_true, if_false]
+            have hk2 : Kids t h ((el' ++ [p]) ++ q :: er) ((cl' ++ [l]) ++ c :: r :: cr) := by simpa using hk
+            have hs2 : Sorted (flat (.node ((el' ++ [p]) ++ q :: er) ((cl' ++ [l]) ++ c :: r :: cr))) := by
+              simpa using hs
+            have := bal_right_steal (key := key) hk2 (by simp [hcl']) hs2 hrmin hcmax hwl hq hwr'
+            exact ⟨_, el'.length + 1, rfl, by simpa using this, by simp, by simp, by simp⟩
+    · have : isMinimal t l = false := by simp [isMinimal, hlmin]
+      simp only [this, Bool.false_eq_true, if_false]
+      exact ⟨_, el'.length + 1, rfl, bal_left_steal hk hcl' hs hlmin hcmax hwl' hp hwr, by simp, by simp, by simp⟩
+
 
 end Model.BTree
